@@ -712,7 +712,7 @@ theorem newTok_moves {w w' : World} {nl : Nat} {T : Token} (hb : w'.bank = w.ban
     · simp [allowOf, ht, hu]
 
 theorem facCreatePair_moves {w w' : World} {sender : Nat} {a0 a1 : Asset} {req : Requirements} {comm : Option Nat}
-    {np nl : Nat} (h : facCreatePair w sender a0 a1 req comm np nl = .ok w')
+    {lpDec : Option Nat} {np nl : Nat} (h : facCreatePair w sender a0 a1 req comm lpDec np nl = .ok w')
     (hfresh : F → w.tok nl = none) : Moves F S Q w w' := by
   unfold facCreatePair at h
   split at h
@@ -728,6 +728,11 @@ theorem facCreatePair_moves {w w' : World} {sender : Nat} {a0 a1 : Asset} {req :
   obtain ⟨d0, _, d1, _, h⟩ := h
   split at h
   · cases h
+  split at h
+  · cases h
+  have h' : ∃ cb : Bool, (if cb = true then (.error .err : M World) else _) = .ok w' := ⟨_, h⟩
+  clear h
+  obtain ⟨cb, h⟩ := h'
   split at h
   · cases h
   injection h with h
@@ -807,7 +812,7 @@ theorem facMigratePair_ledger {w w' : World} {sender p : Nat} {c : Option Nat}
 
 theorem facExec_moves {w w' : World} {s : Nat} {funds : List (Nat × Nat)} {m : FacMsg}
     (h : facExec w s funds m = .ok w') (hs : S s) (hf : S w.facAddr)
-    (hfresh : F → ∀ a0 a1 req c np nl, m = .createPair a0 a1 req c np nl → w.tok nl = none) :
+    (hfresh : F → ∀ a0 a1 req c ld np nl, m = .createPair a0 a1 req c ld np nl → w.tok nl = none) :
     Moves F S Q w w' := by
   unfold facExec at h
   simp only [bind_ok_iff] at h
@@ -816,8 +821,8 @@ theorem facExec_moves {w w' : World} {s : Nat} {funds : List (Nat × Nat)} {m : 
   have htok := (attach_same h0).2
   cases m with
   | updateConfig o tc pc => exact (facUpdateConfig_ledger h).moves
-  | createPair a0 a1 req comm np nl =>
-    exact facCreatePair_moves h (fun hF => htok ▸ hfresh hF a0 a1 req comm np nl rfl)
+  | createPair a0 a1 req comm lpDec np nl =>
+    exact facCreatePair_moves h (fun hF => htok ▸ hfresh hF a0 a1 req comm lpDec np nl rfl)
   | addDecimals d k => exact (facAddDecimals_ledger h).moves
   | migratePair p c => exact (facMigratePair_ledger h).moves
 
@@ -875,8 +880,8 @@ theorem exec_moves {name : Asset → String} {w w' : World} {op : Op} {out : Out
     simp only [exec, bind_ok_iff, pure_ok_iff, Prod.mk.injEq] at h
     obtain ⟨w1, h1, rfl, _⟩ := h
     refine facExec_moves (S := Touched w (.factory s f m)) h1 (.inl rfl) (.inr rfl) ?_
-    intro hF a0 a1 req c np nl hm
-    exact (hF s f a0 a1 req c np nl (by rw [hm])).2.1
+    intro hF a0 a1 req c ld np nl hm
+    exact (hF s f a0 a1 req c ld np nl (by rw [hm])).2.1
 
 /-! ### the C07 statements -/
 
